@@ -9,7 +9,20 @@ _FALSE = object()
 
 
 def replace_bool(value: Any) -> Any:
-    return _TRUE if value is True else _FALSE if value is False else value
+    """Alias booleans so they never compare equal to numbers, at any depth.
+
+    In CPython, ``True == 1`` and ``[True] == [1]``; JSON Schema equality
+    distinguishes booleans from numbers inside arrays and objects too.
+    """
+    if value is True:
+        return _TRUE
+    if value is False:
+        return _FALSE
+    if isinstance(value, list):
+        return [replace_bool(item) for item in value]
+    if isinstance(value, dict):
+        return {key: replace_bool(item) for key, item in value.items()}
+    return value
 
 
 def _is_instance(value, type_args):
